@@ -29,6 +29,8 @@ PROPS = {
     "C02": P("model_checking", ARITH_RULE, 1200, 40000, *A("C02")),
     "C03": P("model_checking", ARITH_RULE, 700, 20000, *A("C03")),
     "C04": P("model_checking", GEN_RULE, 4000, 150000, *O("C04"), count_all=True),
+    "C05": P("model_checking", GEN_RULE, 6000, 150000, [("MC_Text.tla", "MC_Text_syn_quick.cfg")], [("MC_Text.tla", "MC_Text_syn_thorough.cfg")], count_all=True),
+    "C06": P("model_checking", GEN_RULE, 3000, 80000, [("MC_Text.tla", "MC_Text_str_quick.cfg")], [("MC_Text.tla", "MC_Text_str_thorough.cfg")], count_all=True),
     "C08": P("model_checking", GEN_RULE, 2500, 80000, *O("C08")),
     "C11": P("model_checking", GEN_RULE, 1500, 50000, *O("C11")),
     "C12": P("model_checking", GEN_RULE, 3000, 100000, [("MC_Bid.tla", "MC_Bid_quick.cfg")], [("MC_Bid.tla", "MC_Bid_thorough.cfg")], count_all=True),
